@@ -91,6 +91,7 @@ class Machine:
         self.s = mk(cls, bits, pos)
         self.bits = bits
         self.pos = pos
+        self.opt_ba = False
         self.good_reads_from_nonzero = 0
         self.failed_reads = 0
         self.len_changes = 0
@@ -252,7 +253,7 @@ class Machine:
         if pat == '':
             self.expect_error(res, 'error', 'readto(empty)')
             return
-        m = all_matches(self.bits, pat, self.pos, len(self.bits), bool(ba))
+        m = all_matches(self.bits, pat, self.pos, len(self.bits), self.opt_ba if ba is None else bool(ba))
         if not m:
             self.expect_error(res, 'readerror', f'readto({pat!r})')
             return
@@ -302,7 +303,7 @@ class Machine:
         if pat == '' or w is None:
             require(is_raised(res, ValueError), f'{which} with an empty pattern / invalid range must raise ValueError', got=res)
             return
-        m = all_matches(self.bits, pat, w[0], w[1], bool(ba))
+        m = all_matches(self.bits, pat, w[0], w[1], self.opt_ba if ba is None else bool(ba))
         exp = () if not m else ((m[0],) if which == 'find' else (m[-1],))
         require(res == exp, f'{which} differs from brute force', got=res, expected=exp)
         if m:
@@ -418,6 +419,8 @@ class Machine:
         s = self.s
         before_len = len(self.bits)
         before_pos = self.pos
+        if op['op'] == 'replace' and op.get('ba') is None:
+            op = dict(op, ba=False)
         r, objs = c03.resolve(op, self.bits)
         res = attempt(c03.call_impl, s, op, r, objs)
         if is_raised(res) and isinstance(res.exc, Violation):
@@ -616,12 +619,14 @@ def case_st(focus=None, max_steps=25, classes=STREAMS):
         pos = draw(st.integers(0, len(bits)))
         n = draw(st.integers(1, max_steps if tier == 'quick' else max_steps * 2))
         steps = draw(st.lists(step_st(cls == 'BitStream', focus), min_size=n, max_size=n))
-        return {'cls': cls, 'bits': bits, 'pos': pos, 'steps': steps}
+        return {'cls': cls, 'bits': bits, 'pos': pos, 'steps': steps, 'opt_ba': draw(st.sampled_from([False, False, True]))}
     return f
 
 
 def run(case):
     m = Machine(case['cls'], case['bits'], case['pos'])
+    m.opt_ba = bool(case.get('opt_ba'))
+    bitstring_module().options.bytealigned = m.opt_ba
     m.invariant('construction')
     for s in case['steps']:
         if len(m.bits) > c03.MAX_LEN:
